@@ -416,6 +416,8 @@ _R11 = {
 }
 for _p, _t in _R11.items():
     CHECKS[_p]["text"] += _t
+CHECKS["C06"]["text"] += (" In seed_keypair, once the public key is written, sk[32..64) is only written by the copy from pk, so generating the "
+                          "key pair in place (pk == sk + 32) works (R6.7).")
 _PENDING = "not claimed"
 NOT_APPLICABLE = {
     "C01": "every clause is an equality between computed byte strings and a mathematical specification over all keys/nonces/lengths/backends: "
